@@ -75,6 +75,15 @@ def task(W, payload):
         elif not same({"outputs": r2["outputs"], "derived": dict((k, v) for k, v in r2["derived"])}, refd):
             fail(out, "building with literals gives different results from running with the same parameter values", "c09", payload, program=ops, params=params)
         if nontrivial: out["cases"].append(h + ":literal")
+        # ... and at a state in which every compartment is populated (the initial population of a generated model often leaves the infectious
+        # compartments empty, so that a run does not feel the mixing matrices): the rates of the literal-built and the parameter-built model
+        for smode, t_, x_ in sample_states(r, prog, ("interior",)):
+            oa = S.I.apply({"op": "one_step", "params": [[k, v] for k, v in params.items()], "t": t_, "x": x_})
+            ob = I2.apply({"op": "one_step", "params": [], "t": t_, "x": x_})
+            out["evals"] += 1
+            if oa["ok"] and ob["ok"] and not vec_close(oa["flow_rates"], ob["flow_rates"], 1e-9):
+                fail(out, "building with literals gives different flow rates at a populated state from running with the same parameter values", "c09", payload,
+                     t=t_, x=x_, literal=ob["flow_rates"], parameters=oa["flow_rates"], program=ops, params=params)
     # (e) a parameter that reaches the SAVED outputs only through a cumulative / aggregate output of a function output that is itself pruned by the
     # derived-output whitelist: it is still an input parameter, and supplying it has the effect of the literal value
     names_ = [op["name"] for op in ops if op["op"] == "request"]
